@@ -107,9 +107,24 @@ Theorem C35_rows_response_inversion : forall rq e f d w,
             (if d then e_dist e else e_local e) = RunOk.
 Proof. exact rows_response_inversion. Qed.
 
+(* "... and otherwise answers locally with a reason": when the answer is the local engine's to give and it has one,
+   the response is that answer.  members_up counts members last seen Up only: a peer that discovery has listed but
+   no probe has reached yet (Unknown) does not make a second member *)
+Theorem C35_local_when_not_distributable : forall rq e m,
+  dist_mode_parse (r_query rq) = Some m -> e_load e = Loaded -> request_valid rq = true ->
+  should_be_local m e = true -> e_local e = RunOk ->
+  exists f r, sql_handler rq e = RespRows f false (Some r).
+Proof. exact local_when_not_distributable. Qed.
+
+Theorem C35_auto_one_member_answers_locally : forall rq e,
+  dist_mode_parse (r_query rq) = Some Auto -> e_load e = Loaded -> request_valid rq = true ->
+  e_members_up e < 2 -> e_local e = RunOk ->
+  exists f, sql_handler rq e = RespRows f false (Some ROneMember).
+Proof. exact auto_one_member_answers_locally. Qed.
+
 (* the executable spec applied to the implementation's responses is met by the model on every input *)
 Theorem C35_model_meets_spec : forall rq e m,
-  dist_mode_parse (r_query rq) = Some m -> spec_ok m e (sql_handler rq e) true = true.
+  dist_mode_parse (r_query rq) = Some m -> spec_ok m e (request_valid rq) (sql_handler rq e) true = true.
 Proof. exact model_meets_spec. Qed.
 
 (* query-string quirks pinned on concrete strings *)
@@ -143,6 +158,8 @@ Print Assumptions C35_local_never_distributes.
 Print Assumptions C35_no_fallback_after_failure.
 Print Assumptions C35_distributed_choice_ignores_local.
 Print Assumptions C35_rows_response_inversion.
+Print Assumptions C35_local_when_not_distributable.
+Print Assumptions C35_auto_one_member_answers_locally.
 Print Assumptions C35_model_meets_spec.
 Print Assumptions C35_parse_examples.
 Print Assumptions C35_arrow_encoding_never_known.
